@@ -965,3 +965,25 @@ def g_not_variant(a, name):
         return False
 
     return pred
+
+
+def session_start_resets(ctx):
+    """The outstation's per-session clean-up is cancellation-safe: the TCP server drops a running session future when a new
+    connection arrives, so whatever a session must not inherit is (also) reset BEFORE the first await of the next session:
+    SessionState::reset and DatabaseHandle::reset dominate run_idle_state in OutstationSession::run; the transport reader and
+    writer resets dominate the session in OutstationTask::run (F17)."""
+    prog = ctx.prog
+    sb = prog.abody("OutstationSession::run")
+    first = call_sites(sb, r"OutstationSession::run_idle_state$")
+    if len(first) != 1:
+        raise AnchorError("OutstationSession::run: run_idle_state call")
+    for rx, what in ((r"SessionState::reset$", "session state (pending SELECT, last request, deferred READ)"), (r"DatabaseHandle::reset$", "event / static selection")):
+        rs = [c for c in call_sites(sb, rx) if sb.block_dominates(c.idx, first[0].idx) and c.idx != first[0].idx]
+        ctx.check(bool(rs), "session-start-reset:%s" % rx.split("::")[0], "%s is reset before the session's first await" % what, sb.where(first[0].idx), bad_detail="OutstationSession::run does not reset the %s before its first await: a session that was pre-empted (future dropped by the TCP server on a new connection) hands it to the next connection" % what)
+    tb = prog.abody("outstation::task::OutstationTask::run")
+    run = call_sites(tb, r"OutstationSession::run$")
+    if len(run) != 1:
+        raise AnchorError("OutstationTask::run: session.run call")
+    for rx, what in ((r"TransportReader::reset$", "transport / link reader"), (r"TransportWriter::reset$", "transport writer")):
+        rs = [c for c in call_sites(tb, rx) if tb.block_dominates(c.idx, run[0].idx) and c.idx != run[0].idx]
+        ctx.check(bool(rs), "session-start-reset:%s" % rx.split("::")[0], "the %s is reset before the session runs" % what, tb.where(run[0].idx), bad_detail="OutstationTask::run does not reset the %s before running the session: a pre-empted session leaves its partial frame / fragment / sequence state to the next connection" % what)
